@@ -194,6 +194,24 @@ fn c10_flag_models() {
     assert!(DeviceStatus::ACKNOWLEDGE.bits() == 1 && DeviceStatus::DRIVER.bits() == 2 && DeviceStatus::DRIVER_OK.bits() == 4
         && DeviceStatus::FEATURES_OK.bits() == 8 && DeviceStatus::DEVICE_NEEDS_RESET.bits() == 64
         && DeviceStatus::FAILED.bits() == 128, "C10: DeviceStatus constants");
+    // the generated bitflags 2.x method models (//@BITFLAGS), on the real macro-generated methods, all x, y
+    let y: u32 = kani::any();
+    let (a, b) = (DeviceStatus::from_bits_retain(x), DeviceStatus::from_bits_retain(y));
+    const ALL: u32 = 0xcf;
+    assert!(DeviceStatus::all().bits() == ALL, "C10: bitflags all()");
+    assert!(a.is_empty() == (x == 0) && a.is_all() == (x & ALL == ALL), "C10: bitflags is_empty / is_all");
+    assert!(a.contains(b) == (x & y == y) && a.intersects(b) == (x & y != 0), "C10: bitflags contains / intersects");
+    assert!(a.union(b).bits() == x | y && a.intersection(b).bits() == x & y && a.difference(b).bits() == x & !y
+        && a.symmetric_difference(b).bits() == x ^ y && a.complement().bits() == !x & ALL, "C10: bitflags set operations");
+    assert!((a | b).bits() == x | y && (a & b).bits() == x & y && (a - b).bits() == x & !y && (a ^ b).bits() == x ^ y
+        && (!a).bits() == !x & ALL, "C10: bitflags operators");
+    assert!(DeviceStatus::from_bits_truncate(x).bits() == x & ALL, "C10: bitflags from_bits_truncate");
+    assert!(DeviceStatus::from_bits(x).map(|f| f.bits()) == (if x & !ALL == 0 { Some(x) } else { None }), "C10: bitflags from_bits");
+    let mut c = a; c.insert(b); assert!(c.bits() == x | y, "C10: bitflags insert");
+    let mut c = a; c.remove(b); assert!(c.bits() == x & !y, "C10: bitflags remove");
+    let mut c = a; c.toggle(b); assert!(c.bits() == x ^ y, "C10: bitflags toggle");
+    let v: bool = kani::any();
+    let mut c = a; c.set(b, v); assert!(c.bits() == (if v { x | y } else { x & !y }), "C10: bitflags set");
 }
 
 /// C10 K-complete: contract of the Verus stub `device_type_try_from` on the real
